@@ -66,6 +66,7 @@ CallRes Ctx::call(fn2 f, int64_t a, int64_t b)
   {
   CallRes r{ 0, 0 };
   ++st.evaluations;
+  struct Rec { Ctx & c; CallRes & r; ~Rec() { if(c.sampling && c.cur_results.size() < 12) c.cur_results.push_back(r.sig ? INT64_MIN : r.v); } } rec{ *this, r };
   int s = sigsetjmp(t_jb, 0);
   if(s == 0)
     {
@@ -113,6 +114,13 @@ void Ctx::sample(const char * check, int64_t a, int64_t b, int64_t c, const char
   std::string s = "{\"check\":\"" + jesc(check) + "\",\"a\":" + i2s(a) + ",\"b\":" + i2s(b) + ",\"c\":" + i2s(c) + ",\"cfg\":\"" + jesc(cfg) + "\",\"observed\":" + i2s(observed) + ",\"note\":\"" + jesc(note) + "\"}";
   st.samples.push_back(s);
   }
+void Ctx::record_sample(const char * check, int64_t a, int64_t b, int64_t c, bool violated)
+  {
+  std::string s = "{\"check\":\"" + jesc(check) + "\",\"args\":[" + i2s(a) + "," + i2s(b) + "," + i2s(c) + "],\"first_library_results\":[";
+  for(size_t i = 0; i < cur_results.size(); ++i) s += std::string(i ? "," : "") + i2s(cur_results[i]);
+  s += std::string("],\"judged\":\"") + (violated ? "violation" : "ok") + "\"}";
+  st.samples.push_back(s);
+  }
 void Stats::merge(const Stats & o)
   {
   evaluations += o.evaluations; cases += o.cases; signals += o.signals;
@@ -128,66 +136,6 @@ void Stats::merge(const Stats & o)
   nontrivial_overflow += o.nontrivial_overflow;
   for(auto & m : o.maxima) { auto it = maxima.find(m.first); if(it == maxima.end() || m.second.first > it->second.first) maxima[m.first] = m.second; }
   for(auto & s : o.samples) if(samples.size() < 24) samples.push_back(s);
-  }
-
-// ------------------------------------------------------------------------------------------ lattice
-static std::vector<int64_t> build_lattice()
-  {
-  std::set<int64_t> s;
-  auto add = [&](i128 v) { if(v >= RAW_LOWEST && v <= RAW_MAX) { s.insert((int64_t)v); } };
-  auto pm = [&](i128 v) { add(v); add(-v); };
-  pm(0);
-  for(int j = 1; j <= 4; ++j) pm(j);
-  for(int k = 0; k <= 62; ++k) { i128 p = (i128)1 << k; pm(p); pm(p - 1); pm(p + 1); }
-  pm(((i128)1 << 63) - 2); pm(((i128)1 << 63) - 3);
-  for(int n = 1; n <= 12; ++n) pm((i128)65536 * n);
-  for(int n : { 16, 90, 100, 180, 255, 256, 360, 361, 1000, 32767, 32768, 65535, 65536 }) pm((i128)65536 * n);
-  for(int j = 0; j <= 4; ++j) { add((i128)RAW_MAX - j); add((i128)RAW_LOWEST + j); }
-  for(int j = -2; j <= 2; ++j) { pm(((i128)1 << 47) + j); pm(((i128)1 << 46) + j); pm(((i128)1 << 48) + j); pm(((i128)1 << 31) + j); pm(((i128)1 << 32) + j); pm(((i128)1 << 30) + j); }
-  for(int j = -2; j <= 2; ++j) { pm((i128)2147483647 * 65536 + j); pm((i128)2147483648ll * 65536 + j); pm((i128)2147483646 * 65536 + j); }
-  for(int64_t c : { PHI, PHI2, (int64_t)51472, TWO_PHI, (int64_t)411775, (int64_t)617662, (int64_t)68629, (int64_t)32768, (int64_t)39321, (int64_t)39322, (int64_t)28672, (int64_t)45056, (int64_t)77824, (int64_t)159744, (int64_t)57738456761160ll })
-    for(int j = -1; j <= 1; ++j) pm(c + j);
-  pm(3 * (i128)PHI2); pm(3 * (i128)PHI2 + 1); pm(5 * (i128)PHI2);
-  return std::vector<int64_t>(s.begin(), s.end());
-  }
-const std::vector<int64_t> & lattice() { static std::vector<int64_t> l = build_lattice(); return l; }
-const std::vector<int64_t> & lattice_small()
-  {
-  static std::vector<int64_t> l = [] {
-    std::set<int64_t> s;
-    auto pm = [&](i128 v) { if(v >= RAW_LOWEST && v <= RAW_MAX) { s.insert((int64_t)v); s.insert((int64_t)-v); } };
-    pm(0); pm(1); pm(2); pm(3); pm(65535); pm(65536); pm(65537); pm(32768); pm(131072); pm(3 * 65536);
-    for(int k : { 8, 15, 16, 17, 24, 30, 31, 32, 33, 40, 46, 47, 48, 55, 61, 62 }) { pm((i128)1 << k); pm(((i128)1 << k) - 1); }
-    pm(RAW_MAX); pm(RAW_MAX - 1); pm((i128)2147483647 * 65536); pm(PHI); pm(PHI2);
-    return std::vector<int64_t>(s.begin(), s.end()); }();
-  return l;
-  }
-std::vector<int64_t> lattice_with(std::initializer_list<int64_t> extra)
-  {
-  std::vector<int64_t> l = lattice();
-  for(int64_t e : extra) l.push_back(e);
-  return l;
-  }
-
-const IntType INT_TYPES[8] = {
-  { "i8", true, 8, -128, 127 }, { "i16", true, 16, -32768, 32767 }, { "i32", true, 32, -(i128)2147483648ll, 2147483647 },
-  { "i64", true, 64, (i128)INT64_MIN, (i128)INT64_MAX },
-  { "u8", false, 8, 0, 255 }, { "u16", false, 16, 0, 65535 }, { "u32", false, 32, 0, 4294967295ll }, { "u64", false, 64, 0, (i128)UINT64_MAX } };
-
-int64_t random_of_type(Rng & r, const IntType & t)
-  {
-  i128 v;
-  switch(r.below(8))
-    {
-    case 0: v = t.lo + (i128)r.below(4); break;
-    case 1: v = t.hi - (i128)r.below(4); break;
-    case 2: v = (i128)r.range(-4, 4); break;
-    case 3: { int k = (int)r.below((uint64_t)t.bits); v = ((i128)1 << k) + (i128)r.range(-2, 2); if(r.next() & 1) v = -v; break; }
-    case 4: v = (i128)2147483647 + (i128)r.range(-3, 3); if(r.next() & 1) v = -v; break;
-    default: { int bits = 1 + (int)r.below((uint64_t)t.bits); u128 m = r.next(); if(bits < 64) m &= (((u128)1 << bits) - 1); v = (i128)m; if(t.is_signed && (r.next() & 1)) v = -v; break; }
-    }
-  if(v < t.lo) v = t.lo; if(v > t.hi) v = t.hi;
-  return (int64_t)(uint64_t)(u128)v; // two's complement truncation: static_cast<T> in the wrapper restores v
   }
 
 // ------------------------------------------------------------------------------------------ configuration loading
@@ -312,7 +260,7 @@ int main(int argc, char ** argv)
     std::vector<std::thread> th;
     for(int i = 0; i < nthreads; ++i)
       {
-      Ctx & c = ctx[(size_t)i]; c.shard = i; c.nshards = nthreads; c.thorough = thorough; c.seed = seed; c.scale = scale; c.prop = prop; c.rng.seed(seed, (uint64_t)i + 1000 * strhash(prop->id) % 1000003);
+      Ctx & c = ctx[(size_t)i]; if(thorough) c.nontrivial_cap = 1u << 21; c.shard = i; c.nshards = nthreads; c.thorough = thorough; c.seed = seed; c.scale = scale; c.prop = prop; c.rng.seed(seed, (uint64_t)i + 1000 * strhash(prop->id) % 1000003);
       th.emplace_back([&c, prop] { prop->run(c); });
       }
     for(auto & t : th) t.join();
